@@ -20,3 +20,9 @@ TEXT["C17"] = {
     "design_ref": "DESIGN.md section 3, C17",
     "level_note": "Trusted: the transcription of the documented grammar into the reference matchers; the set of registered digest algorithms (sha256/384/512); router observed via ociserver.ServeHTTP + recorder.",
 }
+TEXT["C02"] = {
+    "technique": "model-based property testing (rapid, state-aware history generator): every operation's outcome and a full observable sweep are compared with an independent reference model",
+    "level_text": "Generated operation histories (all 18 Interface methods plus BlobWriter Write/Close/Size/ID/Commit/Cancel, resume in both modes, both tag modes, malformed names/tags/manifests) are executed on ocimem; after every operation the result is checked against a reference model (per repository: blobs, manifests, tag bindings, upload sessions) that answers with the set of acceptable outcomes, and everything observable in the touched repositories is re-read and compared. Sampling, with the generator's event histogram in the evidence and required event classes in the thorough tier.",
+    "design_ref": "DESIGN.md section 3, C02",
+    "level_note": "Trusted: internal/model (about 600 lines) as the transcription of interface.go's documented semantics; stated tolerances (empty repository unknown-or-empty, dangling tags, un-coded rejection of malformed manifests, mount size 0).",
+}
